@@ -223,6 +223,11 @@ class GUPPIRawReader(BasebandReader):
     def _read_array(self, offset, n, /, **kwargs):
         """Read n samples from current read position into numpy array."""
         z = self._read_baseband(offset, n, **kwargs)
+
+        # OBSBW < 0: channels are stored in order of decreasing frequency
+        if self.lower_sideband:
+            z = np.flip(z, axis=-1)
+
         return z.transpose(0, 2, 1)
 
 
